@@ -16,6 +16,9 @@ func (k msgServer) IncreaseLiquidity(ctx context.Context, msg *types.MsgIncrease
 	if _, err := k.addressCodec.StringToBytes(msg.Sender); err != nil {
 		return nil, errorsmod.Wrap(err, "invalid sender address")
 	}
+	if msg.AmountBase.IsNil() || msg.AmountQuote.IsNil() || msg.MinAmountBase.IsNil() || msg.MinAmountQuote.IsNil() {
+		return nil, errorsmod.Wrap(types.ErrInvalidTokenAmounts, "amounts and min amounts must be set")
+	}
 	// end static validation
 
 	sdkCtx := sdk.UnwrapSDKContext(ctx)
